@@ -37,6 +37,19 @@ LEAVES = [
     dict(cname='byte_to_ascii7', lean='byte_to_ascii7', file='dfs/dfs_catalog.cc'),
     dict(cname='crc_cycle', lean='crc_cycle', file='dfs/crc16.cc'),
     dict(cname='opposite_surface', lean='opposite_surface', file='dfs/driveselector.cc', members={'d_': 'd'}, ctor_returns=True),
+    dict(cname='read_block', lean='fileview_pos', file='dfs/img_fileio.cc', var_init='pos', mangled='FileView',
+         members={'initial_skip_': 'initial_skip', 'take_': 'take', 'leave_': 'leave', 'total_': 'total'}, params=['initial_skip', 'take', 'leave', 'sector']),
+    dict(cname='read_block', lean='fileview_unformatted', file='dfs/img_fileio.cc', if_cond=0, ret='Bool', mangled='FileView',
+         members={'initial_skip_': 'initial_skip', 'take_': 'take', 'leave_': 'leave', 'total_': 'total'}, params=['take']),
+    dict(cname='read_block', lean='fileview_beyond', file='dfs/img_fileio.cc', if_cond=1, ret='Bool', mangled='FileView',
+         members={'initial_skip_': 'initial_skip', 'take_': 'take', 'leave_': 'leave', 'total_': 'total'}, params=['total', 'sector']),
+    dict(cname='read_block', lean='volume_access_beyond', file='dfs/dfs_volume.cc', if_cond=0, ret='Bool', mangled='Access',
+         members={'origin_': 'origin', 'len_': 'len'}, params=['len', 'lba']),
+    dict(cname='smells_like_watford', lean='watford_start_sector', file='dfs/identify.cc', var_init='start_sector', params=['buf1', 'pos'], ptypes={'buf1': ARR}),
+    dict(cname='smells_like_watford', lean='watford_sector2_in_use', file='dfs/identify.cc', if_cond=0, ret='Bool', params=['start_sector']),
+    dict(cname='get_dfs_sector_count', lean='get_dfs_sector_count', file='dfs/identify.cc', ptypes={'sec1': ARR}),
+    dict(cname='get_hdfs_sector_count', lean='get_hdfs_sector_count', file='dfs/identify.cc', ptypes={'sec1': ARR}),
+    dict(cname='total_sectors', lean='geometry_total_sectors', file='dfs/geometry.cc', members={'cylinders': 'cylinders', 'heads': 'heads', 'sectors': 'sectors'}, nparams=0),
     dict(cname='print_target_line_number', lean='target_line_number', file='basic/lines.c', upto_var='n'),
 ]
 
